@@ -171,6 +171,27 @@ def check_contract(case, s, t, where):
                 raise Violation(f"{what}: row {i}: logl does not belong to x", sig={"kind": "row-logl"})
             if rb and nblob and not t.blob_match(x[i], o[3][i]):
                 raise Violation(f"{what}: row {i}: blob does not belong to x", sig={"kind": "row-blob"})
+        if tr and not rs and not rb and not rl:
+            # the trimmed output is the top of the untrimmed weights, renormalised, and keeps the requested share of the ESS - for the
+            # parameters of THIS call (an earlier call with other parameters on the same history must not matter)
+            wu = np.sort(np.asarray(lib_call(s.posterior, trim_importance_weights=False, what="posterior(trim_importance_weights=False)")[1], dtype=float))[::-1]
+            for et in (0.5, 0.99, 0.9):
+                ot = lib_call(s.posterior, ess_trim=et, what=f"posterior(ess_trim={et})")
+                wt = np.sort(np.asarray(ot[1], dtype=float))[::-1]
+                k = len(wt)
+                top = wu[:k] / np.sum(wu[:k])
+                ess_u, ess_t = 1.0 / np.sum(wu ** 2), 1.0 / np.sum(wt ** 2)
+                from tempest.tools import trim_weights
+
+                k_ref = len(lib_call(trim_weights, np.arange(len(wu)), wu.copy(), ess=et, bins=1000, what="trim_weights")[0])
+                if k != k_ref:
+                    raise Violation(f"{where}: posterior(ess_trim={et}) after calls with other trimming parameters keeps {k} of {len(wu)} samples; "
+                                    f"trim_weights(ess={et}) applied to the untrimmed weights keeps {k_ref}", sig={"kind": "trim-parameters-not-honoured"})
+                if k > len(wu) or np.max(np.abs(wt - top)) > 1e-9 * max(top.max(), 1e-300) or ess_t / ess_u < et - 1e-9:
+                    raise Violation(f"{where}: posterior(ess_trim={et}) after calls with other trimming parameters: kept {k} of {len(wu)} samples, "
+                                    f"ESS kept/ESS all = {ess_t / ess_u:.4f} (requested >= {et}); the kept weights are "
+                                    f"{'not ' if np.max(np.abs(wt - top)) > 1e-9 * max(top.max(), 1e-300) else ''}the renormalised top of the untrimmed ones",
+                                    sig={"kind": "trim-parameters-not-honoured"})
         if rl:
             lw_out = np.asarray(o[-1], dtype=float)
             if not rs and (np.any(~np.isfinite(lw_out)) or np.max(np.abs(np.exp(lw_out - np.max(lw_out)) / np.sum(np.exp(lw_out - np.max(lw_out))) - w)) > 1e-9):
@@ -203,6 +224,13 @@ def exec_full(case):
                 lib_call(s.sample, what="Sampler.sample [after run()]")
             check_contract(case, s, t, "run() then one more sample()")
             classes = classes + ["run-then-sample"]
+        elif case["pool_seed"] % 4 == 2:
+            # a second plain run() on the object that has already run (a larger request): whatever it does to the schedule, what
+            # posterior() returns afterwards still has to honour the contract
+            with quiet():
+                lib_call(s.run, n_total=2 * n_total, progress=False, what="Sampler.run [second call on the same object]")
+            check_contract(case, s, t, "run() and a second run() on the same object")
+            classes = classes + ["run-then-run"]
         return {"nontrivial": T >= 3, "classes": classes, "sample": cfggen.summary(case)}
     with scratch_dir() as od:
         s, t = cfggen.build(case, output_dir=od)
